@@ -1,6 +1,9 @@
 #!/bin/bash
 # refactor_matrix.sh: apply every behaviour-preserving refactoring under /verif/refactorings to a scratch copy of
 # /repo HEAD and run all 20 quick checks; every check must stay quiet (exit 0).  Prints one line per refactoring.
+# the checks run from a copy of the COMMITTED /verif, so that edits in progress cannot disturb a run
+SNAP=$(mktemp -d /tmp/vfsnap.XXXXXX); git -C /verif archive HEAD | tar -x -C $SNAP
+[ -d /verif/.deps ] && ln -s /verif/.deps $SNAP/.deps
 for d in /verif/refactorings/R*; do
   SCR=$(mktemp -d /tmp/vfrf.XXXXXX); mkdir -p $SCR/repo
   git -C /repo archive HEAD | tar -x -C $SCR/repo
@@ -8,8 +11,9 @@ for d in /verif/refactorings/R*; do
   tests=$(cd $SCR/repo && timeout 600 /venv/bin/python -m pytest -q -p no:cacheprovider unittests 2>&1 | tail -1)
   loud=""
   for n in 01 02 03 04 05 06 07 08 09 10 11 12 13 14 15 16 17 18 19 20; do
-    (cd /verif && VERIF_REPO=$SCR/repo VERIF_EVIDENCE_DIR=$SCR/ev VERIF_REPLAY_DIR=$SCR/rp ./check C$n quick >/dev/null 2>&1) || loud="$loud C$n"
+    (cd $SNAP && VERIF_REPO=$SCR/repo VERIF_EVIDENCE_DIR=$SCR/ev VERIF_REPLAY_DIR=$SCR/rp ./check C$n quick >/dev/null 2>&1) || loud="$loud C$n"
   done
   echo "$(basename $d): unit tests '$tests'; checks raising an alarm:${loud:- none}"
   rm -rf $SCR
 done
+rm -rf $SNAP
